@@ -822,6 +822,8 @@ impl FileData {
             })?;
 
         #[cfg(wild_verif)]
+        crate::verif::sched_point(60);
+        #[cfg(wild_verif)]
         if let Some(name) = path.file_name().and_then(|n| n.to_str()) {
             crate::verif::point(&format!("opened={name}"))?;
         }
